@@ -9,6 +9,8 @@ R-quant (vlib/ref/quant.py, written from SMPTE ST 2042-1 13.3).
 """
 import random
 
+from vlib import jsonx
+
 from vlib.ref import quant as R
 
 PROPERTY = "C12"
@@ -70,6 +72,8 @@ def _all_cases(tier, seed):
         out.append({"kind": "dq", "index": idx, "n": p["dq"], "seed": "%d/C12/dq/%d" % (seed, idx)})
     for i in range(p["matrix_cases"]):
         out.append({"kind": "matrix", "n": p["matrices"], "seed": "%d/C12/matrix/%d" % (seed, i)})
+    for i in range(32 if tier == "quick" else 256):
+        out.append({"kind": "lqgen", "n": 6, "seed": "%d/C12/lqgen/%d" % (seed, i)})
     # fixed (seed independent) shuffle so that a round-robin split gives shards of equal cost
     random.Random("C12/plan/" + tier).shuffle(out)
     return out
@@ -204,6 +208,8 @@ def run_case(case, ctx):
         return _run_tables(case, ctx)
     if kind == "matrix":
         return _run_matrix(case, ctx)
+    if kind == "lqgen":
+        return _run_lqgen(case, ctx)
     idx = case["index"]
     qf = R.factor(idx)
     if kind == "exh":
@@ -394,6 +400,71 @@ def _run_matrix(case, ctx):
     ctx.count("batches")
 
 
+def _run_lqgen(case, ctx):
+    """The lossless-quantisation *test case generator* itself: whenever it emits a test case, the qindex it chose must
+    make coefficient value 1 dequantise differently for different matrix entries (that is what the test case relies on),
+    judged with the reference quantiser on the effective indices qindex - matrix entry found in the emitted description."""
+    from vc2_conformance.test_cases.decoder.lossless_quantization import lossless_quantization
+    from vc2_data_tables import QUANTISATION_MATRICES, WaveletFilters
+    from vlib.gen import configs
+    from vlib.ref import rq
+
+    rng = random.Random(case["seed"])
+    for _ in range(case["n"]):
+        wi = rng.choice([1, 3, 4])
+        d = rng.choice([1, 2])
+        r = dict(base=0, cdf=rng.choice([0, 1, 2]), pcm=0, ss=0, tff=True, w=8, h=8, fr=None, par=None, prim=None, mat=None, tf=None,
+                 profile=3, lossless=True, wi=wi, wih=wi, d=d, dh=0, sx=rng.choice([1, 2]), sy=1, fsc=rng.choice([0, 0, 1]), pb=None,
+                 level=0, pics={"n": 1, "class": "mid", "seed": 1, "nums": None})
+        exc = rng.choice([8, 9, 12, 15, 31, 63, 255, 255, 1023, 65535])
+        r["range"] = [0, exc, (exc + 1) // 2, exc]
+        if rng.random() < 0.6:
+            lo = rng.choice([0, 0, 1, 2, 4])
+            r["qm"] = {"0": {"LL": lo + rng.randrange(0, 3)}}
+            for l in range(1, d + 1):
+                r["qm"][str(l)] = {"HL": lo + rng.randrange(0, 5), "LH": lo + rng.randrange(0, 5), "HH": lo + rng.randrange(0, 7)}
+        else:
+            r["qm"] = None
+        cf = configs.build_cf(r)
+        stream = lossless_quantization(cf)
+        key = jsonx.key_hash(["lqgen", r])
+        if stream is None:
+            ctx.count("lqgen_omitted")
+            ctx.seen(key, nontrivial=False)
+            continue
+        ctx.count("lqgen_emitted")
+        ctx.seen(key)
+        if r["qm"] is not None:
+            entries = sorted(set(v for lv in r["qm"].values() for v in lv.values()))
+        else:
+            dm = QUANTISATION_MATRICES[(WaveletFilters(wi), WaveletFilters(wi), d, 0)]
+            entries = sorted(set(v for lv in dm.values() for v in lv.values()))
+        qs = set()
+        for seq in stream["sequences"]:
+            for du in seq["data_units"]:
+                td = None
+                if "picture_parse" in du:
+                    td = du["picture_parse"]["wavelet_transform"]["transform_data"]
+                elif "fragment_parse" in du and "fragment_data" in du["fragment_parse"]:
+                    td = du["fragment_parse"]["fragment_data"]
+                if td is not None:
+                    for sl in td.get("hq_slices", []):
+                        qs.add(sl["qindex"])
+        for q in sorted(qs):
+            vals = {}
+            for m in entries:
+                y = rq.inverse_quant(1, max(q - m, 0))
+                if y in vals:
+                    ctx.violation("quant:lossless-test-case-qindex-not-distinct",
+                                  "lossless_quantization test case uses qindex %d with matrix entries %r: entries %d and %d both dequantise 1 to %d (effective indices %d, %d)"
+                                  % (q, entries, vals[y], m, y, max(q - vals[y], 0), max(q - m, 0)), case={"kind": "lqgen", "n": 1, "seed": case["seed"]})
+                    break
+                vals[y] = m
+            ctx.count("lqgen_qindices_checked")
+        if len(entries) > 1:
+            ctx.count("lqgen_emitted_with_distinct_entries")
+
+
 def floor(agg, tier):
     p = _params(tier)
     c = agg["counters"]
@@ -416,6 +487,8 @@ def floor(agg, tier):
         miss.append("monotonicity walk incomplete (%d factor steps)" % c.get("factor_steps_walked", 0))
     if c.get("reference_selfcheck_indices", 0) != p["mono_hi"]:
         miss.append("reference self-check incomplete")
+    if c.get("lqgen_emitted_with_distinct_entries", 0) < 60 or c.get("lqgen_qindices_checked", 0) < 60:
+        miss.append("lossless_quantization generator stratum too thin (%d emitted with distinct entries)" % c.get("lqgen_emitted_with_distinct_entries", 0))
     if c.get("matrices_with_distinct_entries", 0) < 100:
         miss.append("fewer than 100 quantisation matrices with distinct entries")
     if c.get("max_bits_rnd", 0) < 500 or c.get("random_beyond_256_bits", 0) == 0:
